@@ -19,7 +19,7 @@ from collections import Counter, defaultdict
 
 import numpy as np
 
-from .. import snap
+from .. import ops, snap
 from ..env import xgi
 
 PID = "C09"
@@ -63,8 +63,71 @@ ASPECTS = ("node-labels", "edge-ids", "node-order", "edge-order", "member-order"
 
 def plan(tier):
     if tier == "quick":
-        return {"combined": 160, "node-labels": 70, "edge-ids": 90, "order": 80}
-    return {"combined": 28000, "node-labels": 10000, "edge-ids": 14000, "order": 12000}
+        return {"combined": 160, "node-labels": 70, "edge-ids": 90, "order": 80, "sequence": 60}
+    return {"combined": 28000, "node-labels": 10000, "edge-ids": 14000, "order": 12000, "sequence": 8000}
+
+
+def _seq_functions():
+    """Measures for the same-object sequences: the live object (with its edit history, i.e. another insertion
+    history) must give the same structural quantities as a freshly built equal network."""
+    import numpy as _np
+
+    def comps(H):
+        return sorted(sorted(map(repr, c)) for c in xgi.connected_components(H))
+
+    def dense(f, **kw):
+        return lambda H: f(H, sparse=False, **kw)
+
+    return [
+        ("degree", lambda H: H.nodes.degree.asdict()),
+        ("degree(order=1)", lambda H: H.nodes.degree(order=1).asdict()),
+        ("degree(weight)", lambda H: H.nodes.degree(weight="weight").asdict()),
+        ("size", lambda H: H.edges.size.asdict()),
+        ("average_neighbor_degree", lambda H: H.nodes.average_neighbor_degree.asdict()),
+        ("clustering_coefficient", xgi.clustering_coefficient),
+        ("local_clustering_coefficient", xgi.local_clustering_coefficient),
+        ("two_node_clustering_coefficient", xgi.two_node_clustering_coefficient),
+        ("connected_components", comps),
+        ("number_connected_components", xgi.number_connected_components),
+        ("shortest_path_length", lambda H: dict(xgi.shortest_path_length(H))),
+        ("density", xgi.density),
+        ("incidence_density", xgi.incidence_density),
+        ("degree_assortativity", lambda H: xgi.degree_assortativity(H, kind="uniform", exact=True)),
+        ("dynamical_assortativity", xgi.dynamical_assortativity),
+        ("edit_simpliciality", xgi.edit_simpliciality),
+        ("simplicial_fraction", xgi.simplicial_fraction),
+        ("face_edit_simpliciality", xgi.face_edit_simpliciality),
+        ("maximal", lambda H: sorted(map(repr, H.edges.maximal()))),
+        ("maximal(strict)", lambda H: sorted(map(repr, H.edges.maximal(strict=True)))),
+        ("duplicates", lambda H: len(list(H.edges.duplicates()))),
+        ("katz_centrality", xgi.katz_centrality),
+        ("incidence_matrix", dense(xgi.incidence_matrix)),
+        ("adjacency_matrix", dense(xgi.adjacency_matrix)),
+        ("adjacency_matrix(weighted)", dense(xgi.adjacency_matrix, weighted=True, s=2)),
+        ("degree_matrix", xgi.degree_matrix),
+        ("intersection_profile", dense(xgi.intersection_profile)),
+        ("clique_motif_matrix", dense(xgi.clique_motif_matrix)),
+        ("laplacian", lambda H: xgi.laplacian(H, order=1)),
+        ("multiorder_laplacian", lambda H: xgi.multiorder_laplacian(H, [1, 2], [1, 0.5])),
+        ("normalized_hypergraph_laplacian", dense(xgi.normalized_hypergraph_laplacian)),
+    ]
+
+
+def _sequence_case(mon, idx, rng):
+    from .. import stale
+
+    kind = ("int", "gap", "str")[idx % 3]
+    _, pool = ops.node_pool(rng, kind, 7)
+
+    def build():
+        H = xgi.Hypergraph()
+        H.add_nodes_from(pool[:5])
+        for _ in range(rng.randint(3, 6)):
+            H.add_edge(ops.rand_members(rng, pool[:6], 1, 4), weight=rng.choice((1, 2, 0.5)))
+        return H
+
+    mon.note("sequence-cases")
+    stale.run(mon, rng, "Hypergraph", _seq_functions(), build, pool)
 
 
 def floors(tier):
@@ -75,6 +138,8 @@ def floors(tier):
     f.update({f"ekind:{k}": (50 if q else 8000) for k in ("perm", "gap", "str")})
     f.update({f"aspect:{a}": (150 if q else 25000) for a in ASPECTS})
     f["cases-compared"] = 380 if q else 60000
+    f["seq:evaluations-after-edit"] = 2000 if q else 300000
+    f["seq:state-changed-with-same-id-sets"] = 40 if q else 6000
     return f
 
 
@@ -707,6 +772,8 @@ def run_variant(mon, t, attrs, par, labels=None):
 
 
 def run_case(mon, kind, idx, rng):
+    if kind == "sequence":
+        return _sequence_case(mon, idx, rng)
     flavour, n, edges, attrs = gen_base(rng)
     par = gen_params(rng, n)
     t = gen_transform(rng, kind, idx, n, edges)
